@@ -92,7 +92,7 @@ PINS = {
         '            has_create = True\n'
         '        if tmp_token.value.upper() == LIT_s2:\n'
         '            has_table = True\n'
-        '        if tmp_token.value == LIT_s3:\n'
+        '        if tmp_token.value.upper() == LIT_s3:\n'
         '            has_as = True\n'
         '    if has_create and has_table and (not has_as):\n'
         '        return\n'
@@ -180,7 +180,7 @@ PINS = {
         '    self.is_keyword = ttype in T.Keyword\n'
         '    self.is_whitespace = self.ttype in T.Whitespace\n'
         '    self.is_newline = self.ttype in T.Newline\n'
-        '    self.normalized = value.upper() if self.is_keyword else value\n'
+        "    self.normalized = ' '.join(value.upper().split()) if self.is_keyword else value\n"
     ),
     'sql.Token.match': (
         'def match(self, ttype, values, regex=False):\n'
